@@ -404,3 +404,27 @@ PROPS["C13"] = dict(
         seeded("client-close", "e2e", "^TestC13ClientClose$", 150 if tier == "quick" else 3000, 8, timeout=900 if tier == "quick" else 3400, journal=True, shrinktime="30s"),
     ] + ([seeded("closes-race", "e2e", "^TestC13$", 400, 8, timeout=3400, journal=True, race=True, shrinktime="30s")] if tier == "thorough" else []),
 )
+
+PROPS["C18"] = dict(
+    title="Outbound packets never exceed the configured maximum size",
+    pkg="e2e",
+    rule=("(sizes) rapid-generated worlds: MaxPacketSize from {default, 1472, 1471, 1400, 1000, 576, 300} on server and clients, plain or "
+          "RTSPS+SRTP, a reader and a publisher each over UDP or TCP, and 4..24 writes through the seven entry points (ServerStream.WritePacketRTP/"
+          "RTCP, ServerSession.WritePacketRTCP towards a reader and towards a publisher, Client.WritePacketRTP, Client.WritePacketRTCP of a "
+          "publisher and of a reader) with packets built to an exact marshalled size: limit-16..limit+16 mostly (limit = maximum, minus 10 for "
+          "SRTP, minus 14 for SRTCP), sometimes far below/above; RTP with 0..15 CSRCs, header extension of 0..5 words, padding 0..255; RTCP "
+          "receiver reports with profile extensions or compound RR+SDES. Taps on every UDP socket (ListenPacket of server and clients) and on the "
+          "clients' control connections above TLS record each datagram and interleaved frame. Oracle: no recorded RTP/RTCP packet is larger than "
+          "the maximum; every write whose plain size exceeds the limit of its entry point returns an error and, after a sentinel through the same "
+          "path was seen on the wire, its sequence number / SSRC marker never appeared. Non-trivial: >=2 writes within 4 bytes of the limit and "
+          ">=2 packets seen on the wire. (start) generated (MaxPacketSize, WriteQueueSize) for Server.Start and Client.Start: a maximum above 1472 "
+          "or a queue size that is not a power of two must be refused. Distinct by case hash."),
+    assumptions=[
+        "multicast writers are not exercised (no multicast route in the sandbox); the MKI variant of SRTP (client-managed keys) is not reachable with the library's own server",
+        "the converse (every write within the limit is accepted) is not part of C18; C01 covers delivery of maximum-size packets",
+    ],
+    jobs=lambda tier: [
+        seeded("sizes", "e2e", "^TestC18$", 400 if tier == "quick" else 6000, 16, timeout=900 if tier == "quick" else 3400),
+        seeded("start", "e2e", "^TestC18Start$", 2000 if tier == "quick" else 50000, 1, timeout=900),
+    ],
+)
